@@ -62,6 +62,8 @@ pub mod thread {
             let h = rt::spawn(body);
             let handle = Arc::new(Mutex::new(Some(h)));
             self.handles.borrow_mut().push(handle.clone());
+            let pending = self.handles.borrow().iter().filter(|h| h.lock().unwrap().is_some()).count();
+            rt::note_scope_pending(pending);
             ScopedJoinHandle { handle, result, _marker: PhantomData }
         }
 
